@@ -136,6 +136,10 @@ pub fn run(seed: u64) -> Ax {
             ax.chk("to_bitvec / from_bitslice / From<&Bs>: same view", view(&c1) == *bits && view(&c2) == *bits && view(&c3) == *bits, || format!("n={}", n));
             ax.chk("to_bitvec / from_bitslice / From<&Bs>: head of the source is kept", n == 0 || (head(&c1) == head(bs) && head(&c2) == head(bs) && head(&c3) == head(bs)), || format!("n={} off={} heads {} {} {}", n, off, head(&c1), head(&c2), head(&c3)));
             ax.chk("Clone for BitVec: same view and head", view(&c1.clone()) == *bits && (n == 0 || head(&c1.clone()) == head(&c1)), || format!("n={}", n));
+            // force_align
+            let mut fa = c1.clone();
+            fa.force_align();
+            ax.chk("force_align: same view, head 0", view(&fa) == *bits && (n == 0 || head(&fa) == 0), || format!("n={} off={} head {}", n, off, if n == 0 { 0 } else { head(&fa) }));
             // fresh vector + extend
             let mut f = Bv::with_capacity(n);
             f.extend_from_bitslice(bs);
